@@ -6,12 +6,18 @@ for f in sorted(glob.glob('/verif/seeded/*/meta.json')):
     m=json.load(open(f))
     d=os.path.basename(os.path.dirname(f))
     c=m['confirmed']
-    ok = ('FAIL' in c['demo_with_change'] or 'fail' in c['demo_with_change'].lower()) and c['demo_without_change'].startswith('ok') and 'FAIL' not in c['suite_with_change']
-    rows.append((d, m['property'], 'yes' if ok else 'CHECK', 'detected' if m['detected_by_check'] else 'missed', m.get('check_tier','quick'), m.get('check_seconds','?'), m.get('note','')))
+    ok = m.get('breaks_property_on_that_tree', ('FAIL' in c['demo_with_change']) and c['demo_without_change'].startswith('ok') and 'FAIL' not in c['suite_with_change'])
+    note = m.get('note','')
+    try:
+        note = open(os.path.dirname(f)+'/NOTE.txt').read().strip()
+    except Exception:
+        pass
+    rows.append((d, m['property'], ('yes' if ok else 'NO') + ' (' + m.get('confirmed_against','?').replace('current /repo HEAD','HEAD') + ')', 'detected' if m['detected_by_check'] else 'missed', m.get('check_tier','quick'), m.get('check_seconds','?'), note))
 with open('/verif/seeded/SUMMARY.md','w') as o:
     o.write('# Seeded changes\n\nEach directory holds patch.diff, demo_test.go.txt, README.md (the sub-agent\'s description) and meta.json (what was run here and what was observed).\n\n')
     o.write('| change | property | confirmed (suite passes, demo fails with / passes without) | check result | tier | seconds | note |\n|---|---|---|---|---|---|---|\n')
     for r in rows: o.write('| '+' | '.join(str(x) for x in r)+' |\n')
-    det=sum(1 for r in rows if r[3]=='detected')
-    o.write(f'\n{det} of {len(rows)} detected by the registered checks.\n')
+    live=[r for r in rows if r[2].startswith('yes')]
+    det=sum(1 for r in live if r[3]=='detected')
+    o.write(f'\n{det} of {len(live)} changes that break their property on the tree they were confirmed against are detected by the registered checks ({len(rows)-len(live)} changes no longer break it on the current tree).\n')
 print(open('/verif/seeded/SUMMARY.md').read())
